@@ -37,9 +37,21 @@
    splitter (-1 none yet), seen = the ids that were the store's current
    checkpoint at some moment since this start was spawned.
 
-   Deviations (witness generation only; the tree does neither):
+   Late acknowledgements (C12: "late ... acknowledgements never complete or corrupt it"; C13): todo[s] is the checkpoint
+   member s of the assembly that took it has still to acknowledge - the message may be under way, also from a member
+   that has meanwhile been lost.  Ack(s) delivers it at ANY later moment: while the job is paused, at every point of the
+   following start() and after it runs again.  The store accepts it iff that checkpoint is still pending.  Ghost:
+   pend.asm = the start (assembly) number the pending checkpoint was created for; oldpub = the checkpoints whose LAST
+   acknowledgement was accepted after a later start had discarded / read (its first two statements, one step here).
+   NoOldAssemblyPublication: oldpub = {} - a checkpoint only completes while its own assembly is the job's assembly
+   (this includes the pause and the moment before the next start() has begun; a publication whose write is merely
+   still in flight is SingleCut's subject, not this one's).
+
+   Deviations (witness generation only; the tree does none of them):
      Dev_RereadAfterDeploy  StartSplitter uses the store's current checkpoint at that moment
      Dev_RereadAtDeploy     the Deploy requests are built from a second read, the splitter gets the first
+     Dev_DiscardAtRunning   the pending checkpoint of the previous assembly is discarded by the task that sets Running,
+                            not at the top of start()
 *)
 EXTENDS Integers, Sequences, FiniteSets, TLC, Json
 
@@ -49,18 +61,19 @@ CONSTANTS W,            \* config.WorkerCount
           MaxLen,       \* behaviour length (generation); large for exhaustive runs
           HoldIn,       \* generation steering: job statuses in which no publication completes ({} = unconstrained)
           Focus,        \* generation steering: a member is lost only while a checkpoint that can still complete is open or being written
-          Dev_RereadAfterDeploy, Dev_RereadAtDeploy
+          Dev_RereadAfterDeploy, Dev_RereadAtDeploy, Dev_DiscardAtRunning
 
-VARIABLES status, st, cur, lastId, pend, inflight, lost, depck, splck, seen, nstarts, hist
+VARIABLES status, st, cur, lastId, pend, inflight, todo, oldpub, depck, splck, seen, nstarts, hist
 
-vars == <<status, st, cur, lastId, pend, inflight, lost, depck, splck, seen, nstarts, hist>>
-view == <<status, st, cur, lastId, pend, inflight, lost, depck, splck, seen, nstarts>>
+vars == <<status, st, cur, lastId, pend, inflight, todo, oldpub, depck, splck, seen, nstarts, hist>>
+view == <<status, st, cur, lastId, pend, inflight, todo, oldpub, depck, splck, seen, nstarts>>
 \* transition cover: one shortest history per (state, incoming step)
 viewT == <<view, IF hist = <<>> THEN <<>> ELSE hist[Len(hist)]>>
 
 Slots   == 1..(2 * W)
 OpSlots == 1..W
-NoPend  == [on |-> FALSE, id |-> 0, acked |-> {}]
+NoPend  == [on |-> FALSE, id |-> 0, acked |-> {}, asm |-> 0]
+NoTodo  == [s \in Slots |-> 0]
 NoSt    == [ph |-> "none", ck |-> 0, out |-> {}]
 NoDep   == [s \in OpSlots |-> -1]
 Max(a, b) == IF a > b THEN a ELSE b
@@ -70,7 +83,7 @@ SetSeq(S) == LET RECURSIVE F(_)
              IN F(S)
 
 Init ==
-  /\ status = "Idle" /\ st = NoSt /\ cur = 0 /\ lastId = 0 /\ pend = NoPend /\ inflight = {} /\ lost = {}
+  /\ status = "Idle" /\ st = NoSt /\ cur = 0 /\ lastId = 0 /\ pend = NoPend /\ inflight = {} /\ todo = NoTodo /\ oldpub = {}
   /\ depck = NoDep /\ splck = -1 /\ seen = {} /\ nstarts = 0 /\ hist = <<>>
 
 \* (the bound on the behaviour length sits here so that Next stays a plain disjunction: -coverage then counts every action by name)
@@ -87,15 +100,15 @@ Join(how) ==
   /\ status' = "Starting" /\ st' = [NoSt EXCEPT !.ph = "spawned"]
   /\ seen' = {cur} /\ depck' = NoDep /\ splck' = -1 /\ nstarts' = nstarts + 1
   /\ Log([a |-> "Join", how |-> how, cur |-> cur])
-  /\ UNCHANGED <<cur, lastId, pend, inflight, lost>>
+  /\ UNCHANGED <<cur, lastId, pend, inflight, todo, oldpub>>
 
-\* member s of the running assembly deregisters: Running -> Paused.  Its process is gone: it acknowledges nothing more.
+\* member s of the running assembly deregisters: Running -> Paused.  (An acknowledgement it has already sent may still arrive.)
 Lose(s) ==
   /\ status = "Running" /\ nstarts <= MaxRestarts
-  /\ Focus => ((pend.on /\ s \in pend.acked) \/ (~pend.on /\ inflight # {}))
-  /\ status' = "Idle" /\ lost' = {s}
+  /\ Focus => (pend.on \/ inflight # {})
+  /\ status' = "Idle"
   /\ Log([a |-> "Lose", s |-> s, pending |-> pend.on, writing |-> SetSeq(inflight)])
-  /\ UNCHANGED <<st, cur, lastId, pend, inflight, depck, splck, seen, nstarts>>
+  /\ UNCHANGED <<st, cur, lastId, pend, inflight, todo, oldpub, depck, splck, seen, nstarts>>
 
 -----------------------------------------------------------------------------
 (* start() on its own goroutine *)
@@ -103,9 +116,9 @@ Lose(s) ==
 ReadCheckpoint ==
   /\ st.ph = "spawned"
   /\ st' = [st EXCEPT !.ph = "read", !.ck = cur]
-  /\ pend' = NoPend /\ lost' = {}        \* DiscardPendingCheckpoint
+  /\ pend' = IF Dev_DiscardAtRunning THEN pend ELSE NoPend        \* DiscardPendingCheckpoint
   /\ Log([a |-> "ReadCheckpoint", ck |-> cur])
-  /\ UNCHANGED <<status, cur, lastId, inflight, depck, splck, seen, nstarts>>
+  /\ UNCHANGED <<status, cur, lastId, inflight, todo, oldpub, depck, splck, seen, nstarts>>
 
 SendDeploys ==
   /\ st.ph = "read"
@@ -113,13 +126,13 @@ SendDeploys ==
      /\ depck' = [s \in OpSlots |-> dck]
      /\ Log([a |-> "SendDeploys", ck |-> dck])
   /\ st' = [st EXCEPT !.ph = "deploying", !.out = Slots]
-  /\ UNCHANGED <<status, cur, lastId, pend, inflight, lost, splck, seen, nstarts>>
+  /\ UNCHANGED <<status, cur, lastId, pend, inflight, todo, oldpub, splck, seen, nstarts>>
 
 DeployNode(s) ==
   /\ st.ph = "deploying" /\ s \in st.out
   /\ st' = [st EXCEPT !.out = @ \ {s}, !.ph = IF st.out = {s} THEN "deployed" ELSE "deploying"]
   /\ Log([a |-> "DeployNode", s |-> s, ck |-> IF s \in OpSlots THEN depck[s] ELSE -1, last |-> st.out = {s}])
-  /\ UNCHANGED <<status, cur, lastId, pend, inflight, lost, depck, splck, seen, nstarts>>
+  /\ UNCHANGED <<status, cur, lastId, pend, inflight, todo, oldpub, depck, splck, seen, nstarts>>
 
 StartSplitter ==
   /\ st.ph = "deployed"
@@ -127,33 +140,52 @@ StartSplitter ==
      /\ splck' = sck
      /\ Log([a |-> "StartSplitter", ck |-> sck])
   /\ st' = [st EXCEPT !.ph = "started"]
-  /\ UNCHANGED <<status, cur, lastId, pend, inflight, lost, depck, seen, nstarts>>
+  /\ UNCHANGED <<status, cur, lastId, pend, inflight, todo, oldpub, depck, seen, nstarts>>
 
 Run ==
   /\ st.ph = "started"
   /\ status' = "Running" /\ st' = NoSt
+  /\ pend' = IF Dev_DiscardAtRunning THEN NoPend ELSE pend
   /\ Log([a |-> "Run"])
-  /\ UNCHANGED <<cur, lastId, pend, inflight, lost, depck, splck, seen, nstarts>>
+  /\ UNCHANGED <<cur, lastId, inflight, todo, oldpub, depck, splck, seen, nstarts>>
 
 -----------------------------------------------------------------------------
 (* the store *)
 
 Tick ==
   /\ status = "Running" /\ ~pend.on /\ lastId < MaxCk
-  /\ lastId' = lastId + 1 /\ pend' = [on |-> TRUE, id |-> lastId + 1, acked |-> {}]
+  /\ lastId' = lastId + 1 /\ pend' = [on |-> TRUE, id |-> lastId + 1, acked |-> {}, asm |-> nstarts]
+  /\ todo' = [s \in Slots |-> lastId + 1]      \* (an acknowledgement of an earlier checkpoint that is still under way is dropped: bound)
   /\ Log([a |-> "Tick", id |-> lastId + 1])
-  /\ UNCHANGED <<status, st, cur, inflight, lost, depck, splck, seen, nstarts>>
+  /\ UNCHANGED <<status, st, cur, inflight, oldpub, depck, splck, seen, nstarts>>
 
-\* a member of the assembly that took the pending checkpoint acknowledges it (in ANY job status: the store does not
-\* know the job is paused); the last acknowledgement starts the publication
+\* the acknowledgement of member s (of the assembly that took checkpoint todo[s]) reaches the job - in ANY job status and
+\* at any point of a later start(): the store does not know about assemblies.  It is accepted iff that checkpoint is still
+\* pending; the last accepted one starts the publication.
+OwnAssembly == \/ st.ph = "none" /\ pend.asm = nstarts            \* running or paused on the assembly that took it
+               \/ st.ph = "spawned" /\ pend.asm = nstarts - 1     \* the next start() has not executed its first statement yet
 Ack(s) ==
-  /\ pend.on /\ s \notin pend.acked /\ s \notin lost
-  /\ LET ac == pend.acked \cup {s}
-         complete == ac = Slots
-     IN /\ pend' = IF complete THEN NoPend ELSE [pend EXCEPT !.acked = ac]
-        /\ inflight' = IF complete THEN inflight \cup {pend.id} ELSE inflight
-        /\ Log([a |-> "Ack", s |-> s, id |-> pend.id, complete |-> complete])
-  /\ UNCHANGED <<status, st, cur, lastId, lost, depck, splck, seen, nstarts>>
+  /\ todo[s] # 0
+  /\ LET id == todo[s]
+         acc == pend.on /\ pend.id = id /\ s \notin pend.acked
+         ac == pend.acked \cup {s}
+         complete == acc /\ ac = Slots
+     IN /\ pend' = IF complete THEN NoPend ELSE IF acc THEN [pend EXCEPT !.acked = ac] ELSE pend
+        /\ inflight' = IF complete THEN inflight \cup {id} ELSE inflight
+        /\ oldpub' = IF complete /\ ~OwnAssembly THEN oldpub \cup {id} ELSE oldpub
+        /\ Log([a |-> "Ack", s |-> s, id |-> id, ok |-> acc, complete |-> complete, ph |-> st.ph, status |-> status])
+  /\ todo' = [todo EXCEPT ![s] = 0]
+  /\ UNCHANGED <<status, st, cur, lastId, depck, splck, seen, nstarts>>
+
+\* the same action, named by where it strikes (for -coverage)
+AckRunning          == \E s \in Slots : status = "Running" /\ Ack(s)
+AckPaused           == \E s \in Slots : status = "Idle" /\ Ack(s)
+AckBeforeRead       == \E s \in Slots : st.ph = "spawned" /\ Ack(s)
+LateAckBeforeDeploy == \E s \in Slots : st.ph = "read" /\ Ack(s)
+LateAckDuringDeploy == \E s \in Slots : st.ph = "deploying" /\ Ack(s)
+LateAckAfterDeploy  == \E s \in Slots : st.ph \in {"deployed", "started"} /\ Ack(s)
+LateAckRunning      == \E s \in Slots : status = "Running" /\ todo[s] # 0 /\ ~(pend.on /\ pend.id = todo[s]) /\ Ack(s)
+Acks == AckRunning \/ AckPaused \/ AckBeforeRead \/ LateAckBeforeDeploy \/ LateAckDuringDeploy \/ LateAckAfterDeploy \/ LateAckRunning
 
 \* the write of job-id.snapshot returns; the checkpoint becomes current unless a newer one already is
 Publish(id) ==
@@ -162,7 +194,7 @@ Publish(id) ==
   /\ cur' = Max(cur, id)
   /\ seen' = IF st.ph # "none" THEN seen \cup {Max(cur, id)} ELSE seen
   /\ Log([a |-> "PublishDone", id |-> id, cur |-> Max(cur, id), ph |-> st.ph, status |-> status])
-  /\ UNCHANGED <<status, st, lastId, pend, lost, depck, splck, nstarts>>
+  /\ UNCHANGED <<status, st, lastId, pend, todo, oldpub, depck, splck, nstarts>>
 
 \* the same action, named by where it strikes (for -coverage)
 PublishRunning      == \E id \in inflight : status = "Running" /\ Publish(id)
@@ -175,9 +207,9 @@ PublishDone == PublishRunning \/ PublishPaused \/ PublishBeforeRead \/ PublishBe
 
 -----------------------------------------------------------------------------
 Step == \/ \E h \in {"boot", "same", "fresh"} : Join(h)
-        \/ \E s \in Slots : Lose(s) \/ DeployNode(s) \/ Ack(s)
+        \/ \E s \in Slots : Lose(s) \/ DeployNode(s)
         \/ ReadCheckpoint \/ SendDeploys \/ StartSplitter \/ Run \/ Tick
-        \/ PublishDone
+        \/ Acks \/ PublishDone
 
 Next == Step
 
@@ -198,7 +230,10 @@ NewestInWindow == /\ \A s \in OpSlots : depck[s] # -1 => depck[s] \in seen
                   /\ splck # -1 => splck \in seen
 SingleCut == OneCut /\ NewestInWindow
 
-Safety == TypeOK /\ SingleCut
+\* a checkpoint completes only while the assembly that took it is the job's assembly
+NoOldAssemblyPublication == oldpub = {}
+
+Safety == TypeOK /\ SingleCut /\ NoOldAssemblyPublication
 
 -----------------------------------------------------------------------------
 Terminal == ~ENABLED Step
@@ -207,4 +242,6 @@ Dump == (Len(hist) >= MaxLen \/ Terminal) => PrintT(<<"BEHAVIOUR", ToJson(hist)>
 DumpAll == hist # <<>> => PrintT(<<"BEHAVIOUR", ToJson(hist)>>)
 \* with a Dev_* constant TRUE: the history of every state in which the deviating design has used two cuts
 CexDump == (~SingleCut /\ Len(hist) < MaxLen) => PrintT(<<"BEHAVIOUR", ToJson(hist)>>)
+\* with Dev_DiscardAtRunning: the history of every state in which a late acknowledgement has completed an old assembly's checkpoint
+CexDumpLate == (oldpub # {} /\ Len(hist) < MaxLen) => PrintT(<<"BEHAVIOUR", ToJson(hist)>>)
 =============================================================================
